@@ -27,7 +27,7 @@ CHECK_DEADLOCK FALSE
 
 
 def data_module(bps, recs, consts):
-    lines = ["---- MODULE Data ----", "EXTENDS Integers"]
+    lines = ["---- MODULE Data ----", "EXTENDS Integers, TLC"]
     for k, v in consts.items():
         lines.append("%s == %s" % (k, enc(set(v) if k == "Clauses" else v)))
     lines.append("BPs == <<\n  " + ",\n  ".join(enc(b) for b in bps) + "\n>>")
@@ -115,7 +115,7 @@ def run_trace_batches(wd, module, cfg_text, traces, batch_size=60, parallel=None
         bdir = os.path.join(wd, "t%03d" % (i // batch_size))
         os.makedirs(bdir, exist_ok=True)
         with open(os.path.join(bdir, "Data.tla"), "w") as fh:
-            fh.write("---- MODULE Data ----\nEXTENDS Integers\nTraces == <<\n  " + ",\n  ".join(enc(t) for t in traces[i:i + batch_size]) + "\n>>\n====\n")
+            fh.write("---- MODULE Data ----\nEXTENDS Integers, TLC\nTraces == <<\n  " + ",\n  ".join(enc(t) for t in traces[i:i + batch_size]) + "\n>>\n====\n")
         with open(os.path.join(bdir, "T.tla"), "w") as fh:
             fh.write("---- MODULE T ----\nEXTENDS %s\n====\n" % module)
         with open(os.path.join(bdir, "T.cfg"), "w") as fh:
@@ -139,3 +139,11 @@ def run_trace_batches(wd, module, cfg_text, traces, batch_size=60, parallel=None
             else:
                 rej.append((tid, got, total, f[4] if len(f) > 4 else ""))
     return ok, rej, fails, states, errors
+
+
+CFG_TRACE_IMPORT = """SPECIFICATION TSpec
+INVARIANT Progress
+INVARIANT Safe
+POSTCONDITION Accepted
+CHECK_DEADLOCK FALSE
+"""
